@@ -161,7 +161,16 @@ def _reader_rows(C, num):
             conn.options.compression_enabled = comp
             reactor = C.PlayingReactor(conn)
             try:
-                reactor.read_packet(io.BytesIO(data), timeout=0)
+                class Bounded(io.BytesIO):      # a reader that spins on an ended stream must not hang the generator
+                    n = 0
+
+                    def read(self, k=-1):
+                        Bounded.n += 1
+                        if Bounded.n > 2000:
+                            raise RuntimeError('read budget exhausted')
+                        return io.BytesIO.read(self, k)
+                Bounded.n = 0
+                reactor.read_packet(Bounded(data), timeout=0)
                 cls = None
             except BaseException as e:
                 cls = type(e)
